@@ -13,11 +13,26 @@ patch = os.path.join(out, "patch.diff")
 demos = [f for f in glob.glob(os.path.join(out, "*_test.go"))]
 assert os.path.exists(patch) and demos, "missing patch or demo"
 meta = {"id": sid, "breaks": props[0], "ran": []}
-# 1. confirm in a scratch worktree
+# 1. confirm in a scratch worktree (skipped when an earlier run of this script confirmed this very patch)
+prev_meta = os.path.join("/verif/seeded", sid, "meta.json")
+prev_patch = os.path.join("/verif/seeded", sid, "patch.diff")
+reuse = None
+if os.path.exists(prev_meta) and os.path.exists(prev_patch) and open(prev_patch).read() == open(patch).read() and not os.environ.get("RECONFIRM"):
+    try:
+        pm = json.load(open(prev_meta))
+        if pm.get("suite_passes_with_patch") and pm.get("demo_fails_with_patch") and pm.get("demo_passes_without_patch"):
+            reuse = pm
+    except Exception:
+        pass
 wt = "/tmp/confirm-" + sid
+if reuse:
+    for k in ("suite_passes_with_patch", "demo_fails_with_patch", "demo_passes_without_patch", "demo_tags", "demo_tests"):
+        if k in reuse: meta[k] = reuse[k]
+    meta["confirmed_by_earlier_run"] = True
 sh("git -C /repo worktree remove --force %s" % wt)
-rc, o = sh("git -C /repo worktree add -q --detach %s HEAD" % wt); assert rc == 0, o
+rc, o = (0, "") if reuse else sh("git -C /repo worktree add -q --detach %s HEAD" % wt); assert rc == 0, o
 try:
+    if reuse: raise StopIteration
     rc, o = sh("git apply %s" % patch, cwd=wt); assert rc == 0, "patch does not apply: " + o
     rc, o = sh("go build ./... && go test -vet=off -count=1 ./...", cwd=wt)
     meta["suite_passes_with_patch"] = rc == 0
@@ -38,6 +53,8 @@ try:
     meta["demo_tests"] = names
     if not (rc1 != 0 and rc2 == 0):
         meta["demo_output_with"] = o1[-1500:]; meta["demo_output_without"] = o2[-1500:]
+except StopIteration:
+    pass
 finally:
     sh("git -C /repo worktree remove --force %s" % wt)
 print("confirmed:", {k: meta.get(k) for k in ("suite_passes_with_patch", "demo_fails_with_patch", "demo_passes_without_patch")})
